@@ -102,7 +102,8 @@ Init ==
   /\ IF Mode = "full"
      THEN /\ start \in StartLists /\ walk = 0 /\ rng = 0
      ELSE /\ walk \in 1..NWalks
-          /\ rng = LCG((Seed * 7919 + walk * 104729) % 65537)
+          \* (TLC integers are 32 bit: reduce before multiplying large walk numbers)
+          /\ rng = LCG((((Seed * 7919) % 65537) + (((walk % 20000) * 104729) % 65537) + ((walk \div 20000) * 7)) % 65537)
           /\ start = LET d == Draws(rng, 2 + MaxLen) n == d[1] % (MaxLen + 1)
                          perm == d[2] % 4 IN
                      \* a prefix of the id sequence, rotated: cheap variety of start orders
